@@ -641,7 +641,8 @@ def _run_numba(case):
 
     def compute():
         if bigarr is not None:
-            return [[models.freeze(float(v)) for v in bigarr.area],
+            return [tuple(models.freeze(float(v)) for v in bigarr.total_bounds),
+                    [models.freeze(float(v)) for v in bigarr.area],
                     [models.freeze(float(v)) for v in bigarr.length],
                     e2.np_rows(bigarr.bounds),
                     [bool(v) for v in bigarr.intersects_bounds(box)]] + compute_small()
